@@ -342,7 +342,7 @@ Proof.
     intros H. apply ok_inj in H. subst v.
     unfold t0102_render. cbn [vnth nth vnum vstr]. change (3 =? 3) with true. cbv iota.
     rewrite slice_from_ok. discriminate.
-    rewrite len_app, len_cons, len_nil, len_app, len_app, fill_bytes_len.
+    rewrite len_app, len_cons. change (@len N []) with 0. rewrite len_app, len_app, fill_bytes_len.
     rewrite (len_sub body 1) by lia. rewrite (len_sub body (1 + at_ body 0)) by lia. lia.
   - intros H. apply ok_inj in H. subst v. unfold t0102_render. cbn [vnth nth vnum]. change (2 =? 3) with false. discriminate.
 Qed.
